@@ -1,5 +1,7 @@
 // Driver for the message codec family (C01-C05, C10).
-//   codec run <cases.ndjson> <out.ndjson> <journal>
+//
+//	codec run <cases.ndjson> <out.ndjson> <journal>
+//
 // Every case is executed on the real API and one observation is written per case.
 // The driver takes no verdict about values; it observes results, panics, allocation.
 package main
@@ -40,7 +42,7 @@ type Case struct {
 	Mt    int       `json:"mt"`
 	Count int       `json:"count"`
 	Max   int       `json:"max"`
-	Big   int       `json:"big"` // keep inp out of the event when longer than this
+	Big   int       `json:"big"`  // keep inp out of the event when longer than this
 	Lean  bool      `json:"lean"` // C01: no projection in the event, precise allocation measurement
 }
 
@@ -278,6 +280,34 @@ func runRT(c Case) RT {
 	if err != nil {
 		ev.Fatal("%v", err)
 	}
+	// every second value reaches the encoder in an object that has been encoded (and decoded into) before with OTHER contents
+	// of the same shape and the same header octets, and was then edited in place: the encoding is that of the value the
+	// object holds now
+	if w := weight(c.Mand) + weight(c.Opt); c.Via != "body" && w%2 == 0 {
+		hdr := 3
+		if m.GsmMessage != nil {
+			hdr = 4
+		}
+		pm, po := otherContents(c.Mand, hdr), otherContents(c.Opt, 0)
+		if m0, body0, err0 := rm.Build(c.M, pm, po); err0 == nil {
+			var first []byte
+			ev.Guard(func() { first, _ = m0.PlainNasEncode() })
+			if w%4 == 2 || first == nil {
+				// variant A: the object that was encoded is edited in place
+				if rm.Refill(body0, c.Mand, c.Opt, hdr) == nil {
+					m, body = m0, body0
+				}
+			} else {
+				// variant B: the object that RECEIVED those octets is edited in place (when it holds the same set of elements)
+				m1 := nas.NewMessage()
+				var derr error
+				ev.Guard(func() { cp := append([]byte{}, first...); derr = m1.PlainNasDecode(&cp) })
+				if b1, ok := rm.BodyOf(m1); derr == nil && ok && rm.SameShape(m1, c.M, c.Opt) && rm.Refill(b1, c.Mand, c.Opt, hdr) == nil {
+					m, body = m1, b1
+				}
+			}
+		}
+	}
 	var out []byte
 	var eerr error
 	pi := ev.Guard(func() {
@@ -327,6 +357,38 @@ func runRT(c Case) RT {
 		e.Panic, e.Pfn = true, pi.Fn+": "+pi.Kind
 	}
 	return e
+}
+
+// weight: a number that depends on the shape of a slot list only (deterministic choice of a variant per case)
+func weight(ss []rm.Slot) int {
+	w := 0
+	for i, s := range ss {
+		if s.P {
+			w += 1 + i
+		}
+		w += 3 * len(s.V)
+	}
+	return w
+}
+
+// otherContents: the same slots with other contents (lengths, identifiers and the first `hdr` slots untouched)
+func otherContents(ss []rm.Slot, hdr int) []rm.Slot {
+	out := make([]rm.Slot, len(ss))
+	for i, s := range ss {
+		out[i] = s
+		out[i].V = append([]int{}, s.V...)
+		if i < hdr {
+			continue
+		}
+		if len(s.V) >= 2 {
+			for k := range out[i].V {
+				out[i].V[k] = 255 - s.V[k]
+			}
+		} else if len(s.V) == 1 && !(s.Iei == 0 && s.V[0] >= 128 && hdr == 0) {
+			out[i].V[0] = s.V[0] ^ 0x05
+		}
+	}
+	return out
 }
 
 type Re struct {
@@ -387,11 +449,11 @@ type PureD struct {
 	Ok       bool    `json:"ok"`
 	Panic    bool    `json:"panic"`
 	Pfn      string  `json:"pfn"`
-	InpAfter []int   `json:"inp_after"`  // the slice handed to the decoder, after the call
-	D1       rm.Proj `json:"d1"`         // projection right after decoding
-	DScr     rm.Proj `json:"d_scr"`      // projection after every input octet was inverted
-	InpScr   []int   `json:"inp_scr"`    // input slice after every message octet was inverted (expected: inverted input)
-	DTwice   rm.Proj `json:"d_twice"`    // projection of a second, independent decode
+	InpAfter []int   `json:"inp_after"` // the slice handed to the decoder, after the call
+	D1       rm.Proj `json:"d1"`        // projection right after decoding
+	DScr     rm.Proj `json:"d_scr"`     // projection after every input octet was inverted
+	InpScr   []int   `json:"inp_scr"`   // input slice after every message octet was inverted (expected: inverted input)
+	DTwice   rm.Proj `json:"d_twice"`   // projection of a second, independent decode
 }
 
 func runPureD(entry string, inp []byte, bm string) PureD {
